@@ -16,6 +16,11 @@ pub enum Kind {
     Stop,
     ClockMovetime,
     ClockManaged,
+    /// asymmetric clocks, and from the k-th check on 1 s has elapsed: MORE than the opponent's
+    /// budget (100 ms) but far less than the mover's (30 s) - a correct engine is not cut at all
+    ClockOwnBig,
+    /// the same with the clocks swapped: more than the mover's own budget - a regular cut
+    ClockOwnSmall,
 }
 
 impl Kind {
@@ -25,6 +30,8 @@ impl Kind {
             Kind::Stop => "stop",
             Kind::ClockMovetime => "clock-movetime",
             Kind::ClockManaged => "clock-managed",
+            Kind::ClockOwnBig => "clock-own-big",
+            Kind::ClockOwnSmall => "clock-own-small",
         }
     }
     fn parse(t: &str) -> Kind {
@@ -32,6 +39,8 @@ impl Kind {
             "stop" => Kind::Stop,
             "clock-movetime" => Kind::ClockMovetime,
             "clock-managed" => Kind::ClockManaged,
+            "clock-own-big" => Kind::ClockOwnBig,
+            "clock-own-small" => Kind::ClockOwnSmall,
             _ => Kind::Nodes,
         }
     }
@@ -39,6 +48,12 @@ impl Kind {
     fn case(self, p: &SPos, depth: u8, k: u64) -> Case {
         let mut limits = Limits::default();
         let cut;
+        let mut elapsed_ms = None;
+        // who moves at the root decides whose clock is "own"
+        let white_root = {
+            let stm_black = p.fen.split_whitespace().nth(1) == Some("b");
+            (spos::hist(p).len() % 2 == 0) != stm_black
+        };
         match self {
             Kind::Nodes => {
                 limits.nodes = if k == 0 { None } else { Some(k) };
@@ -58,6 +73,19 @@ impl Kind {
                 limits.binc = Some(10);
                 cut = if k == 0 { Cut::ClockNever } else { Cut::ClockAt(k) };
             }
+            Kind::ClockOwnBig | Kind::ClockOwnSmall => {
+                let own_big = self == Kind::ClockOwnBig;
+                let (own, opp) = if own_big { (600_000, 2_000) } else { (2_000, 600_000) };
+                if white_root {
+                    limits.wtime = Some(own);
+                    limits.btime = Some(opp);
+                } else {
+                    limits.wtime = Some(opp);
+                    limits.btime = Some(own);
+                }
+                elapsed_ms = Some(1_000);
+                cut = if k == 0 { Cut::ClockNever } else { Cut::ClockAt(k) };
+            }
         }
         Case {
             fen: p.fen.to_string(),
@@ -65,6 +93,7 @@ impl Kind {
             limits,
             max_depth: Some(depth),
             cut,
+            elapsed_ms,
         }
     }
 }
@@ -265,7 +294,7 @@ pub fn worker(args: &Args, w: &Worker) -> i32 {
     let mut idx = 0usize;
     for pr in &ps {
         let Ok((board, _, _)) = searchrun::open(pr.pos.fen, &spos::hist(pr.pos)) else { continue };
-        for kind in [Kind::Nodes, Kind::Stop, Kind::ClockMovetime, Kind::ClockManaged] {
+        for kind in [Kind::Nodes, Kind::Stop, Kind::ClockMovetime, Kind::ClockManaged, Kind::ClockOwnBig, Kind::ClockOwnSmall] {
             if kind != Kind::Nodes && pr.t > cap_other {
                 continue;
             }
@@ -389,11 +418,13 @@ pub fn worker(args: &Args, w: &Worker) -> i32 {
                 fork_sweep(w, p, depth, Kind::ClockManaged, 1, 0);
             } else if !thorough && probe.nodes > 12_000 {
                 // quick tier, large search: every second poll as a stop, every other limit check as
-                // a clock expiry (the thorough tier takes every one for all three kinds)
+                // a clock expiry (the thorough tier takes every one)
                 fork_sweep(w, p, depth, Kind::Stop, 2, 0);
                 fork_sweep(w, p, depth, Kind::ClockManaged, 2, 1);
             } else {
-                for kind in [Kind::Stop, Kind::ClockMovetime, Kind::ClockManaged] {
+                // (own-big: the child is NOT cut and finishes the whole search - thorough only)
+                let kinds: &[Kind] = if thorough { &[Kind::Stop, Kind::ClockMovetime, Kind::ClockManaged, Kind::ClockOwnBig] } else { &[Kind::Stop, Kind::ClockMovetime, Kind::ClockManaged] };
+                for &kind in kinds {
                     fork_sweep(w, p, depth, kind, 1, 0);
                 }
             }
